@@ -392,7 +392,7 @@ class GridLL(ModelObject):
 
             ll2xy._pyvc_model = True
             return ll2xy
-        raise PyRaise("AttributeError", (name,))
+        raise Unsupported(f"grid.{name}: not part of the modelled grid interface")
 
 
 class ReadReleaseFile(Spec):
